@@ -217,6 +217,9 @@ class Interp:
         if domain not in opsets and not (domain == "" and "" in opsets):
             raise Malformed(f"domain {domain!r} used by {node.op_type} has no opset import")
         if domain != "":
+            from .wellformed import SCHEMA_DOMAINS
+            if domain not in SCHEMA_DOMAINS:
+                raise Malformed(f"{domain}::{node.op_type} is neither an operator of a known domain nor a function of the model")
             raise NotEncoded(f"op {domain}::{node.op_type}")
         version = opsets[""]
         if self.check_schema:
